@@ -91,14 +91,17 @@ theorem chipType_auto (s : S) (v : Int) (h : v < 0) : (view (step s (.chipType v
 
 /-! ## the values stay in force across resets, emulator switches and music loads -/
 
-/-- requested and live values agree (what every setter establishes as long as the deprecated logarithmic-volume switch is off) -/
+/-- the volume scale in force is a function of the requests: the deprecated logarithmic-volume switch selects the native
+    OPN2 scale, otherwise AUTO selects the bank's scale and a model id 1..5 its scale (an id outside 0..5 keeps what was
+    in force) -/
 def Consistent (s : S) : Prop :=
   s.live.numChips = s.setup.numChips ∧
   s.live.lfoEnable = (if s.setup.lfoEnable < 0 then s.bank.lfoEnable else s.setup.lfoEnable != 0) ∧
   s.live.lfoFrequency = (if s.setup.lfoFrequency < 0 then s.bank.lfoFrequency else (s.setup.lfoFrequency % 256).toNat) ∧
   s.live.chipFamily = (if s.setup.chipType < 0 then (s.bank.chipType : Int) else s.setup.chipType) ∧
-  (s.setup.volumeModel = 0 → s.live.volumeScale = s.bank.volumeModel) ∧
-  (1 ≤ s.setup.volumeModel → s.setup.volumeModel ≤ 5 → (s.live.volumeScale : Int) = s.setup.volumeModel - 1) ∧
+  (s.setup.logVolumes = 0 → s.setup.volumeModel = 0 → s.live.volumeScale = s.bank.volumeModel) ∧
+  (s.setup.logVolumes = 0 → 1 ≤ s.setup.volumeModel → s.setup.volumeModel ≤ 5 → (s.live.volumeScale : Int) = s.setup.volumeModel - 1) ∧
+  (s.setup.logVolumes ≠ 0 → s.live.volumeScale = 1) ∧
   s.live.scaleModulators = (s.setup.scaleModulators != 0)
 
 theorem setVolumeScale_spec (cur : Nat) (m : Int) :
@@ -116,28 +119,49 @@ theorem setVolumeScale_spec (cur : Nat) (m : Int) :
     have h5 : ¬ m = 5 := by omega
     simp [h1, h2, h3, h4, h5]
 
+theorem setVolumeScale_native (cur : Nat) : setVolumeScale cur 2 = 1 := by simp [setVolumeScale]
+
+/-- the volume scale applySetup puts in force -/
+def appliedScale (s : S) : Nat :=
+  if s.setup.volumeModel == 0 && s.setup.logVolumes == 0 then s.bank.volumeModel
+  else if s.setup.logVolumes != 0 then setVolumeScale s.live.volumeScale 2 else setVolumeScale s.live.volumeScale s.setup.volumeModel
+
+theorem appliedScale_fix (s : S) (h : Consistent s) : appliedScale s = s.live.volumeScale := by
+  obtain ⟨_, _, _, _, h5, h5', h5l, _⟩ := h
+  unfold appliedScale
+  by_cases hl : s.setup.logVolumes = 0
+  · by_cases h0 : s.setup.volumeModel = 0
+    · simp [h0, hl, h5 hl h0]
+    · have e0 : (s.setup.volumeModel == 0) = false := by simpa using h0
+      simp only [e0, hl, Bool.false_and, Bool.false_eq_true, if_false, bne_self_eq_false]
+      by_cases hr : 1 ≤ s.setup.volumeModel ∧ s.setup.volumeModel ≤ 5
+      · have a := (setVolumeScale_spec s.live.volumeScale s.setup.volumeModel).1 hr.1 hr.2
+        have b := h5' hl hr.1 hr.2
+        omega
+      · exact (setVolumeScale_spec s.live.volumeScale s.setup.volumeModel).2 (by omega)
+  · have e1 : (s.setup.logVolumes == 0) = false := by simpa using hl
+    have e2 : (s.setup.logVolumes != 0) = true := by simpa using hl
+    simp only [e1, e2, Bool.and_false, Bool.false_eq_true, if_false, if_true, setVolumeScale_native]
+    exact (h5l hl).symm
+
+theorem applySetup_scale (s : S) : (applySetup s).live.volumeScale = appliedScale s := by
+  unfold applySetup appliedScale
+  by_cases c : (s.setup.volumeModel == 0 && s.setup.logVolumes == 0) = true <;> simp [c]
+
 /-- on a consistent state re-applying the setup changes nothing -/
-theorem applySetup_fix (s : S) (h : Consistent s) (hl : s.setup.logVolumes = 0) : applySetup s = s := by
-  obtain ⟨h1, h2, h3, h4, h5, h5', h6⟩ := h
+theorem applySetup_fix (s : S) (h : Consistent s) : applySetup s = s := by
+  have hv := appliedScale_fix s h
+  have hs := applySetup_scale s
+  obtain ⟨h1, h2, h3, h4, _, _, _, h6⟩ := h
   obtain ⟨setup, live, bank, seq, devId, hooks, bl⟩ := s
   obtain ⟨nc, le, lf, cf, vs, ca, sm, sp⟩ := live
   simp only at *
-  have hv : (if setup.volumeModel == 0 then bank.volumeModel else setVolumeScale vs setup.volumeModel) = vs := by
-    by_cases h0 : setup.volumeModel = 0
-    · simp [h0, h5 h0]
-    · have : (setup.volumeModel == 0) = false := by simpa using h0
-      rw [this]
-      simp only [Bool.false_eq_true, if_false]
-      by_cases hr : 1 ≤ setup.volumeModel ∧ setup.volumeModel ≤ 5
-      · have a := (setVolumeScale_spec vs setup.volumeModel).1 hr.1 hr.2
-        have b := h5' hr.1 hr.2
-        omega
-      · exact (setVolumeScale_spec vs setup.volumeModel).2 (by omega)
-  simp only [applySetup, hl]
-  simp only [bne_self_eq_false, Bool.false_eq_true, if_false, hv]
+  have e : (applySetup ⟨setup, ⟨nc, le, lf, cf, vs, ca, sm, sp⟩, bank, seq, devId, hooks, bl⟩).live.volumeScale = vs := by rw [hs, hv]
+  unfold applySetup at e ⊢
+  simp only at e ⊢
   congr 1
   simp only [Live.mk.injEq]
-  exact ⟨h1.symm, h2.symm, h3.symm, h4.symm, trivial, trivial, h6.symm, trivial⟩
+  exact ⟨h1.symm, h2.symm, h3.symm, h4.symm, e, trivial, h6.symm, trivial⟩
 
 theorem reset_keeps (s : S) : (step s .reset).1 = s := rfl
 
@@ -147,8 +171,8 @@ theorem emulator_keeps_view (s : S) (e : Int) : view (step s (.emulator e)).1 = 
 
 theorem runAtPcm_keeps_view (s : S) (b : Int) : view (step s (.runAtPcm b)).1 = view s := by simp [step, view, partialReset]
 
-theorem music_keeps (s : S) (h : Consistent s) (hl : s.setup.logVolumes = 0) : (step s .musicAccepted).1 = s ∧ (step s .musicRejected).1 = s := by
-  have := applySetup_fix s h hl
+theorem music_keeps (s : S) (h : Consistent s) : (step s .musicAccepted).1 = s ∧ (step s .musicRejected).1 = s := by
+  have := applySetup_fix s h
   simp only [step]
   constructor <;> split <;> simp [this]
 
@@ -172,54 +196,88 @@ theorem bank_resets_overrides (s : S) (vm lf ct : Nat) :
     (view s').lfoEnabled = (lf / 8 % 2 == 1) ∧ (view s').lfoFrequency = lf % 8 ∧ (view s').chipType = ct := by
   simp [step, applySetup, view]
 
-/-! ## Consistent is established by the setters (logarithmic volumes off) -/
+/-! ## Consistent is established by every call -/
 
 theorem consistent_init : Consistent ({} : S) := by unfold Consistent; decide
 
 /-- applySetup establishes consistency whatever the live values were -/
-theorem consistent_applySetup (s : S) (hl : s.setup.logVolumes = 0) : Consistent (applySetup s) := by
-  unfold Consistent applySetup
-  simp only [hl, bne_self_eq_false, Bool.false_eq_true, if_false]
-  refine ⟨trivial, trivial, trivial, trivial, ?_, ?_, trivial⟩
-  · intro h0; simp [h0]
-  · intro a b
-    have h0 : (s.setup.volumeModel == 0) = false := by
+theorem consistent_applySetup (s : S) : Consistent (applySetup s) := by
+  have hs := applySetup_scale s
+  refine ⟨rfl, rfl, rfl, rfl, ?_, ?_, ?_, rfl⟩
+  · intro hl h0
+    have hl' : s.setup.logVolumes = 0 := hl
+    have h0' : s.setup.volumeModel = 0 := h0
+    rw [hs]; simp [appliedScale, hl', h0']; rfl
+  · intro hl a b
+    have hl' : s.setup.logVolumes = 0 := hl
+    have a' : 1 ≤ s.setup.volumeModel := a
+    have b' : s.setup.volumeModel ≤ 5 := b
+    have e0 : (s.setup.volumeModel == 0) = false := by
       have : s.setup.volumeModel ≠ 0 := by omega
       simpa using this
-    rw [h0]
-    simp only [Bool.false_eq_true, if_false]
-    exact (setVolumeScale_spec _ _).1 a b
+    rw [hs]
+    show ((appliedScale s : Nat) : Int) = s.setup.volumeModel - 1
+    simp only [appliedScale, e0, hl', Bool.false_and, Bool.false_eq_true, if_false, bne_self_eq_false]
+    exact (setVolumeScale_spec _ _).1 a' b'
+  · intro hl
+    have hl' : s.setup.logVolumes ≠ 0 := hl
+    have e1 : (s.setup.logVolumes == 0) = false := by simpa using hl'
+    have e2 : (s.setup.logVolumes != 0) = true := by simpa using hl'
+    rw [hs]
+    simp only [appliedScale, e1, e2, Bool.and_false, Bool.false_eq_true, if_false, if_true, setVolumeScale_native]
 
-theorem consistent_step (s : S) (op : Op) (h : Consistent s) (hl : s.setup.logVolumes = 0)
-    (hop : match op with | .logVol _ => False | _ => True) : Consistent (step s op).1 := by
+theorem consistent_step (s : S) (op : Op) (h : Consistent s) : Consistent (step s op).1 := by
   have hc := h
-  obtain ⟨h1, h2, h3, h4, h5, h5', h6⟩ := h
+  obtain ⟨h1, h2, h3, h4, h5, h5', h5l, h6⟩ := h
   cases op with
   | numChips n =>
     simp only [step, partialReset]; split
     · exact hc
-    · exact ⟨rfl, h2, h3, h4, h5, h5', h6⟩
+    · exact ⟨rfl, h2, h3, h4, h5, h5', h5l, h6⟩
   | emulator e => simp only [step, partialReset]; split <;> exact hc
   | runAtPcm b => exact hc
   | devId id => simp only [step]; split <;> exact hc
-  | lfo v => exact ⟨h1, rfl, h3, h4, h5, h5', h6⟩
-  | lfoFreq v => exact ⟨h1, h2, rfl, h4, h5, h5', h6⟩
-  | chipType v => exact consistent_applySetup _ hl
-  | scaleMod v => exact ⟨h1, h2, h3, h4, h5, h5', rfl⟩
+  | lfo v => exact ⟨h1, rfl, h3, h4, h5, h5', h5l, h6⟩
+  | lfoFreq v => exact ⟨h1, h2, rfl, h4, h5, h5', h5l, h6⟩
+  | chipType v => exact consistent_applySetup _
+  | scaleMod v => exact ⟨h1, h2, h3, h4, h5, h5', h5l, rfl⟩
   | frb v => exact hc
   | arp v => exact hc
   | loop v => exact hc
   | loopCount v => exact hc
   | loopHooksOnly v => exact hc
   | softPan v => exact hc
-  | logVol v => exact absurd hop id
+  | logVol v =>
+    refine ⟨h1, h2, h3, h4, ?_, ?_, ?_, h6⟩
+    · intro hl h0
+      have hl' : (v % 4294967296).toNat = 0 := hl
+      have h0' : s.setup.volumeModel = 0 := h0
+      show (if ((v % 4294967296).toNat != 0) = true then setVolumeScale s.live.volumeScale 2
+            else if (s.setup.volumeModel == 0) = true then s.bank.volumeModel else setVolumeScale s.live.volumeScale s.setup.volumeModel) = s.bank.volumeModel
+      simp [hl', h0']
+    · intro hl a b
+      have hl' : (v % 4294967296).toNat = 0 := hl
+      have a' : 1 ≤ s.setup.volumeModel := a
+      have b' : s.setup.volumeModel ≤ 5 := b
+      have e0 : (s.setup.volumeModel == 0) = false := by
+        have : s.setup.volumeModel ≠ 0 := by omega
+        simpa using this
+      show ((if ((v % 4294967296).toNat != 0) = true then setVolumeScale s.live.volumeScale 2
+            else if (s.setup.volumeModel == 0) = true then s.bank.volumeModel else setVolumeScale s.live.volumeScale s.setup.volumeModel : Nat) : Int) = s.setup.volumeModel - 1
+      simp only [hl', bne_self_eq_false, Bool.false_eq_true, if_false, e0]
+      exact (setVolumeScale_spec _ _).1 a' b'
+    · intro hl
+      have hl' : (v % 4294967296).toNat ≠ 0 := hl
+      have e2 : ((v % 4294967296).toNat != 0) = true := by simpa using hl'
+      show (if ((v % 4294967296).toNat != 0) = true then setVolumeScale s.live.volumeScale 2
+            else if (s.setup.volumeModel == 0) = true then s.bank.volumeModel else setVolumeScale s.live.volumeScale s.setup.volumeModel) = 1
+      simp only [e2, if_true, setVolumeScale_native]
   | volModel v =>
-    refine ⟨h1, h2, h3, h4, ?_, ?_, h6⟩
-    · intro h0
+    refine ⟨h1, h2, h3, h4, ?_, ?_, ?_, h6⟩
+    · intro _ h0
       have : v = 0 := h0
       subst this; simp [step]
-    · intro a b
-      have hv : v = (step s (.volModel v)).1.setup.volumeModel := rfl
+    · intro _ a b
       have a' : 1 ≤ v := a
       have b' : v ≤ 5 := b
       have h0 : (v == 0) = false := by
@@ -229,29 +287,40 @@ theorem consistent_step (s : S) (op : Op) (h : Consistent s) (hl : s.setup.logVo
       rw [h0]
       simp only [Bool.false_eq_true, if_false]
       exact (setVolumeScale_spec _ _).1 a' b'
+    · intro hl; exact absurd rfl hl
   | chanAlloc v => exact hc
   | tempo x => simp only [step]; split <;> exact hc
   | reset => exact hc
   | hook b o => exact hc
-  | bankAccepted vm lf ct => exact consistent_applySetup _ hl
+  | bankAccepted vm lf ct => exact consistent_applySetup _
   | bankRejected => exact hc
-  | musicAccepted => simp only [step]; split; exact consistent_applySetup _ hl; exact hc
-  | musicRejected => simp only [step]; split; exact consistent_applySetup _ hl; exact hc
+  | musicAccepted => simp only [step]; split; exact consistent_applySetup _; exact hc
+  | musicRejected => simp only [step]; split; exact consistent_applySetup _; exact hc
 
-/-- **every state reachable without the deprecated logarithmic-volume switch is consistent**, hence (music_keeps) loading a
-    music file — accepted or rejected — changes no setting, and re-applying the setup at any later reset is the identity -/
-theorem consistent_reachable (ops : List Op) (hops : ∀ op ∈ ops, match op with | .logVol _ => False | _ => True) :
-    Consistent (ops.foldl (fun s op => (step s op).1) {}) ∧ (ops.foldl (fun s op => (step s op).1) ({} : S)).setup.logVolumes = 0 := by
-  suffices H : ∀ (s : S), Consistent s → s.setup.logVolumes = 0 →
-      Consistent (ops.foldl (fun s op => (step s op).1) s) ∧ (ops.foldl (fun s op => (step s op).1) s).setup.logVolumes = 0 from
-    H {} consistent_init rfl
+/-- **every reachable state is consistent** — for every sequence of configuration calls, bank loads, music loads (accepted or
+    rejected) and resets, including the deprecated logarithmic-volume switch: what is in force is a function of what was
+    requested, hence (`music_keeps`) loading a music file changes no setting and re-applying the setup at any later reset is
+    the identity (`applySetup_fix`) -/
+theorem consistent_reachable (ops : List Op) : Consistent (ops.foldl (fun s op => (step s op).1) {}) := by
+  suffices H : ∀ (s : S), Consistent s → Consistent (ops.foldl (fun s op => (step s op).1) s) from H {} consistent_init
   induction ops with
-  | nil => intro s h hl; exact ⟨h, hl⟩
-  | cons op rest ih =>
-    intro s h hl
-    have hop := hops op (by simp)
-    have hl' : (step s op).1.setup.logVolumes = 0 := by
-      cases op <;> simp only [step, partialReset, applySetup] <;> (try split) <;> simp_all
-    exact ih (fun o ho => hops o (by simp [ho])) _ (consistent_step s op h hl hop) hl'
+  | nil => intro s h; exact h
+  | cons op rest ih => intro s h; exact ih _ (consistent_step s op h)
+
+/-- the explicit volume model wins over an earlier logarithmic-volume switch, now and after every later reset or load -/
+theorem volModel_after_logVol (s : S) (l m : Int) (h1 : 1 ≤ m) (h5 : m ≤ 5) :
+    let s' := (step (step s (.logVol l)).1 (.volModel m)).1
+    (s'.live.volumeScale : Int) = m - 1 ∧ ((applySetup s').live.volumeScale : Int) = m - 1 := by
+  have e0 : (m == 0) = false := by
+    have : m ≠ 0 := by omega
+    simpa using this
+  constructor
+  · show ((if (m == 0) = true then _ else setVolumeScale _ m : Nat) : Int) = m - 1
+    rw [e0]; simp only [Bool.false_eq_true, if_false]
+    exact (setVolumeScale_spec _ _).1 h1 h5
+  · rw [applySetup_scale]
+    show ((appliedScale _ : Nat) : Int) = m - 1
+    simp only [appliedScale, step, e0, Bool.false_and, Bool.false_eq_true, if_false, bne_self_eq_false]
+    exact (setVolumeScale_spec _ _).1 h1 h5
 
 end Opn.C18
